@@ -32,6 +32,9 @@ type Object struct {
 	Thread int // allocating thread (concurrent mode), 0 = setup
 	Shared bool
 	Typ    types.Type
+	Key      string      // stable identity of objects allocated by a thread (concurrent mode)
+	OwnerRun *ThreadPath // the thread run that allocated it
+	Foreign  bool
 }
 
 type Ptr struct {
@@ -82,6 +85,7 @@ type ChanV struct {
 }
 
 type CtxV struct {
+	CancelEvent bool
 	Parent    *CtxV
 	Key, Val  Value
 	HasKV     bool
@@ -234,9 +238,15 @@ func (ex *Exec) zero(t types.Type) Value {
 func (ex *Exec) newObject(v Value, label string, t types.Type) *Object {
 	ex.nextObj++
 	o := &Object{ID: ex.nextObj, V: v, Label: label, Typ: t}
-	if ex.conc != nil {
-		o.Thread = ex.conc.curThread
+	if ex.conc.active() {
+		c := ex.conc
+		o.Thread = c.curThread
+		site := label
+		c.allocSeq[site]++
+		o.Key = fmt.Sprintf("T%d:%s#%d", c.curThread, site, c.allocSeq[site])
+		o.OwnerRun = c.cur
 	}
+	ex.allObjs = append(ex.allObjs, o)
 	return o
 }
 
